@@ -13,11 +13,12 @@ theorem act_step_of (g : G) (id : Nat) (f : Fault) (c : Client) (h : g.client id
 
 theorem act_begin_free (g : G) (id : Nat) (kind : ReqKind) (hfree : g.client id = none) :
     act g (.begin id kind) =
-      { g with clients := g.clients ++ [{ id := id, kind := kind, pc := .start, beginDealt := g.dealt }] } := by
+      { g with clients := g.clients ++ [{ id := id, kind := kind, pc := .start, beginDealt := g.dealt }],
+               begins := (id, g.wlog.length) :: g.begins } := by
   simp [act, hfree]
 
-theorem client_snoc_free (g : G) (c : Client) (hfree : g.client c.id = none) :
-    G.client { g with clients := g.clients ++ [c] } c.id = some c := by
+theorem client_snoc_free (g : G) (c : Client) {bs : List (Nat × Nat)} (hfree : g.client c.id = none) :
+    G.client { g with clients := g.clients ++ [c], begins := bs } c.id = some c := by
   unfold G.client at *
   simp [List.find?_append, hfree]
 
@@ -56,7 +57,9 @@ theorem run_update_drift (g : G) (id : Nat) (k v : Bytes) (exp : Nat)
     run g [.begin id (.update k v exp), .step id .none] =
       { g with dealt := g.dealt + 1, slots := g.slots ++ [mkW (g.dealt + 1) exp false .put k v],
                done := g.done ++ [{ id := id, kind := .update k v exp, res := .error .drift, rev := g.dealt + 1,
-                                    beginDealt := g.dealt, endDealt := g.dealt + 1 }] } := by
+                                    beginDealt := g.dealt, endDealt := g.dealt + 1 }],
+               begins := (id, g.wlog.length) :: g.begins,
+               spans := g.spans ++ [⟨id, g.dealt + 1, g.wlog.length, g.wlog.length⟩] } := by
   show act (act g (.begin id (.update k v exp))) (.step id .none) = _
   rw [act_begin_free g id _ hfree, act_step_of _ id _ _ (client_snoc_free g _ hfree)]
   have e0 : (exp == 0) = false := by simp; omega
@@ -64,6 +67,7 @@ theorem run_update_drift (g : G) (id : Nat) (k v : Bytes) (exp : Nat)
   rw [notify_pos _ _ (by simp [mkW])]
   simp only [G.finish]
   rw [filter_free g id hfree _ rfl]
+  simp [G.beginOf]
 
 /-- Same for a guarded delete of an existing key (read, then deal, then reject). -/
 theorem run_delete_drift (g : G) (id : Nat) (k : Bytes) (exp : Nat)
@@ -72,10 +76,13 @@ theorem run_delete_drift (g : G) (id : Nat) (k : Bytes) (exp : Nat)
     run g [.begin id (.delete k exp), .step id .none, .step id .none] =
       { g with dealt := g.dealt + 1, slots := g.slots ++ [mkW (g.dealt + 1) m false .delete k v],
                done := g.done ++ [{ id := id, kind := .delete k exp, res := .error .drift, rev := g.dealt + 1,
-                                    beginDealt := g.dealt, endDealt := g.dealt + 1 }] } := by
+                                    beginDealt := g.dealt, endDealt := g.dealt + 1 }],
+               begins := (id, g.wlog.length) :: g.begins,
+               spans := g.spans ++ [⟨id, g.dealt + 1, g.wlog.length, g.wlog.length⟩] } := by
   show act (act (act g (.begin id (.delete k exp))) (.step id .none)) (.step id .none) = _
   rw [act_begin_free g id _ hfree]
-  rw [act_step_of { g with clients := g.clients ++ [{ id := id, kind := .delete k exp, pc := .start, beginDealt := g.dealt }] }
+  rw [act_step_of { g with clients := g.clients ++ [{ id := id, kind := .delete k exp, pc := .start, beginDealt := g.dealt }],
+                           begins := (id, g.wlog.length) :: g.begins }
     id .none _ (client_snoc_free g _ hfree)]
   simp only [stepClient, hfound, G.setClient]
   rw [map_free g id hfree _ _ rfl]
@@ -86,6 +93,7 @@ theorem run_delete_drift (g : G) (id : Nat) (k : Bytes) (exp : Nat)
   rw [notify_pos _ _ (by simp [mkW])]
   simp only [G.finish]
   rw [filter_free g id hfree _ rfl]
+  simp [G.beginOf]
 
 /-- A create of a key without index record, run without faults: succeeds at the next revision. -/
 theorem run_create_fresh (g : G) (id : Nat) (k v : Bytes) (hfree : g.client id = none)
@@ -97,10 +105,13 @@ theorem run_create_fresh (g : G) (id : Nat) (k v : Bytes) (hfree : g.client id =
                hist := g.hist ++ [{ key := k, rev := g.dealt + 1, val := some v }],
                wlog := g.wlog ++ [{ key := k, rev := g.dealt + 1, val := some v, exp := .absent }],
                done := g.done ++ [{ id := id, kind := .create k v, res := .ok (g.dealt + 1), rev := g.dealt + 1,
-                                    beginDealt := g.dealt, endDealt := g.dealt + 1 }] } := by
+                                    beginDealt := g.dealt, endDealt := g.dealt + 1 }],
+               begins := (id, g.wlog.length) :: g.begins,
+               spans := g.spans ++ [⟨id, g.dealt + 1, g.wlog.length, g.wlog.length + 1⟩] } := by
   show act (act (act g (.begin id (.create k v))) (.step id .none)) (.step id .none) = _
   rw [act_begin_free g id _ hfree]
-  rw [act_step_of { g with clients := g.clients ++ [{ id := id, kind := .create k v, pc := .start, beginDealt := g.dealt }] }
+  rw [act_step_of { g with clients := g.clients ++ [{ id := id, kind := .create k v, pc := .start, beginDealt := g.dealt }],
+                           begins := (id, g.wlog.length) :: g.begins }
     id .none _ (client_snoc_free g _ hfree)]
   simp only [stepClient, G.setClient]
   rw [map_free g id hfree _ _ rfl]
@@ -111,7 +122,7 @@ theorem run_create_fresh (g : G) (id : Nat) (k v : Bytes) (hfree : g.client id =
   rw [notify_pos _ _ (by simp [mkW])]
   simp only [G.finish]
   rw [filter_free g id hfree _ rfl]
-  simp [mkW]
+  simp [mkW, G.beginOf]
 
 /-! ### the sequencer touches neither the store nor the log of finished requests -/
 
@@ -213,14 +224,16 @@ theorem stepClient_sorted (g : G) (c : Client) (f : Fault) (hs : g.store.Sorted)
     · exact hs
   · intro rev key val r st _ hdc
     rw [(finishCreate_store_wlog ..).1]; simpa using doCommit_sorted' hs hdc
-  · intro rev old key val r st _ hdc
+  · intro rev old att key val r st _ hdc
     have h := doCommit_sorted' hs hdc
     split
     · simpa using h
     · rw [(finishCreate_store_wlog ..).1]; simpa using h
-  · intro rev key val _
+  · intro rev att key val _
     split
-    · rw [(finishCreate_store_wlog ..).1]; exact hs
+    · split
+      · rw [(finishCreate_store_wlog ..).1]; exact hs
+      · rw [(createSawIndex_store_wlog ..).1]; exact hs
     · exact hs
   · intro rev key val exp r st _ _ hdc
     have h := doCommit_sorted' hs hdc
@@ -475,7 +488,8 @@ theorem AlphaInv.finishCreate {g : G} (h : AlphaInv g) (c : Client) (hc : Alphab
   · exact hn.finish ..
 
 theorem AlphaInv.createSawIndex {g : G} (h : AlphaInv g) (c : Client) (hc : Alphabet c.kind.key) {key : Bytes}
-    (hk : Alphabet key) (val : Bytes) (rev : Nat) (old : Bytes) : AlphaInv (createSawIndex g c key val rev old) := by
+    (hk : Alphabet key) (val : Bytes) (rev : Nat) (old : Bytes) (att : Nat) :
+    AlphaInv (createSawIndex g c key val rev old att) := by
   unfold KB.createSawIndex
   split
   · exact h.finishCreate c hc hk ..
@@ -517,16 +531,18 @@ theorem AlphaInv.stepClient {g : G} (h : AlphaInv g) {c : Client} (hc : c ∈ g.
   · intro rev key val r st _ hk hdc
     have hkey := hkv hk
     exact (h.afterCommit (h.st.pine hkey hdc) r f key rev (some val) .absent).finishCreate c hck hkey ..
-  · intro rev old key val r st _ hk hdc
+  · intro rev old att key val r st _ hk hdc
     have hkey := hkv hk
     have ha := h.afterCommit (h.st.cas hkey hdc) r f key rev (some val) .absent
     split
     · exact ha.setClient _ hck
     · exact ha.finishCreate c hck hkey ..
-  · intro rev key val _ hk
+  · intro rev att key val _ hk
     have hkey := hkv hk
     split
-    · exact h.finishCreate c hck hkey ..
+    · split
+      · exact h.finishCreate c hck hkey ..
+      · exact h.createSawIndex c hck hkey ..
     · exact h.setClient _ hck
   · intro rev key val exp r st _ hkind hdc
     have hkey : Alphabet key := by simpa [hkind, ReqKind.key] using hck
